@@ -39,6 +39,21 @@ type Faults struct {
 	WriteErrAt    int  // the k-th Write call fails (and every later one)
 	WriteShort    bool // the failing write first accepts half of its bytes
 	FailAfterRead int  // after this many bytes were read every Read and Write fails
+	Timeout       bool // the injected failures are of the timeout kind (net.Error with Timeout() == true): an expired deadline, persistent like the others
+}
+
+// timeoutErr is what an expired deadline looks like.
+type timeoutErr struct{}
+
+func (timeoutErr) Error() string   { return "memnet: injected i/o timeout" }
+func (timeoutErr) Timeout() bool   { return true }
+func (timeoutErr) Temporary() bool { return true }
+
+func (c *Conn) injected() error {
+	if c.F.Timeout {
+		return timeoutErr{}
+	}
+	return ErrInjected
 }
 
 // Conn is the server side of an in-memory connection. The harness is the client.
@@ -103,7 +118,7 @@ func (c *Conn) Read(p []byte) (int, error) {
 			c.failed = true
 			c.ReadsAfterEOF++ // a failed transport is an ended input: reading it over and over is spinning as well
 			c.cond.Broadcast()
-			return 0, ErrInjected
+			return 0, c.injected()
 		}
 		if len(p) == 0 {
 			return 0, nil
@@ -172,7 +187,7 @@ func (c *Conn) Write(p []byte) (int, error) {
 		}
 		c.failed = true
 		c.cond.Broadcast()
-		return n, ErrInjected
+		return n, c.injected()
 	}
 	if len(c.out)+len(p) > MaxOut {
 		// the harness never needs more; remember that the server flooded the client
